@@ -568,7 +568,7 @@ Variant(cfg, argv, st) ==
        + (IF st.phase = "scan" THEN 1 ELSE 0),
      Len(st.pairs) - st.pi,
      IF st.phase = "intake" THEN MaxOf(cfg, st.cur) + 1 - st.cnt
-     ELSE IF st.phase = "pair" THEN 1000000 ELSE 0,
+     ELSE IF st.phase = "pair" THEN 2000000 ELSE 0,
      PhaseRank(st.phase) >>
 
 RECURSIVE LexLess(_, _)
